@@ -171,6 +171,22 @@ def step (line : String) : String :=
         | none, _ => "bad-op"
         | _, none => "bad-frame: body is not an encoding of the Spec layout"
       | _, _, _, _ => "bad-args"
+    | ["c17v", t, hav, ks, sa, ha] =>
+      -- the ApiVersions response of the first negotiating operation's loadVersions cut after k bytes, the call repeated
+      match ofHex t, ofHex hav, ks.toNat?, parseInst sa ha, specOf "apiVersions" with
+      | some topic, some av, some k, some a, some avSpec =>
+        match specOf a.name, ConnVersions.negotiating a.name with
+        | some o, some (key, cands) =>
+          let stream := (frame 1 av).take k
+          let strict := Gen.ConnLegacy.loadVersionsStrict
+          let r1 := ConnVersions.vDo strict avSpec key cands o topic (ConnVersions.VConn.fresh stream 1)
+          let r2 := ConnVersions.vDo strict avSpec key cands o topic r1.2
+          let h := match words impl with
+            | [x, y] => isFailStr x && isFailStr y
+            | _ => false
+          s!"model={showOutcome r1.1} {showOutcome r2.1} holds={if h then 1 else 0}"
+        | _, _ => "bad-op"
+      | _, _, _, _, _ => "bad-args"
     | ["c17rawt", hr, ks] =>
       -- Transport path (saslauthenticate RawExchange): the same un-framed answer, model `rawToken`
       match ofHex hr, ks.toNat? with
